@@ -704,6 +704,8 @@ ODD_LINES = [
     ',string x', 'csrrw x0, x1, 0x300', 'fence.i', 'ebreak', 'X = 0x10 | 0b11 ^ 3 & ~1', 'X = 2 ** 3 ** 2', 'X = -2 ** 2',
     'X = 7 // 2 % 3', 'X = 1 << 4 >> 2', 'X = (((1)))', 'X = ()', 'X = 1 / 2', 'X = 1 // 0', 'X = 08', 'X = 0_1', 'X = 1_000',
     'X = 0x', 'X = 1__0', 'X = a b', 'X = x8', 'X = - - 1', 'X = + ~ 1', 'X = 1 - -1', 'X = 2**-1',
+    'align 0', 'align -4', 'align 1', 'lw x8, %lo((x9)', 'sw x8 4(x9) 1', 'c.sw x8 4(', 'c.lw x8, 4((x9)', 'lw x8, %lo', 'sw x8, %hi(',
+    'lw x8, %lo(5)(x9)', 'dw %offset a b', 'dw %offset(a b)', 'dw %position(a', 'dw %position a', 'li t0, %lo(', 'jalr x1, 4(x2', 'jalr x1, 4(x2)',
 ]
 
 
